@@ -620,6 +620,13 @@ func TestDefaultTime(t *testing.T) {
 		switch sit {
 		case "field":
 			c.Fields["ts"] = text
+			if rapid.IntRange(0, 5).Draw(t, "intsubject") == 0 {
+				// an integer-typed subject: its decimal string form is what is parsed (9..19 digits, also the compact
+				// date layout yyyymmddhhmmss, negatives)
+				c.Fields["ts"] = rapid.SampledFrom([]int64{999999999, 1600000000, 16000000000, 160000000000, 1600000000000, 16000000000000, 20140722105203, 19991231235959, 160000000000000,
+					1600000000000000, 16000000000000000, 160000000000000000, 1600000000000000000, 9223372036854775807, -1600000000, 0, 20210527}).Draw(t, "intts")
+				evid.Label("default_time/integer-subject")
+			}
 		case "variable", "variable@outer-block":
 			prog = append(prog, gen.NSet("ts", str(text)), gen.NCall("add_key", id("ts")))
 		case "tag":
@@ -886,6 +893,46 @@ func TestCollectionSubjects(t *testing.T) {
 		}
 	}
 	evid.Exhaustive("collection value x extraction builtin; capture from one collection, then another extraction on another collection", n)
+}
+
+// TestProcessZone: a zone argument that is absent or the empty string means the zone of the process; a host runs
+// pipelines wherever it is. The process zone is set to three zones other than UTC for the duration of this test.
+func TestProcessZone(t *testing.T) {
+	old := time.Local
+	defer func() { time.Local = old }()
+	texts := []string{"2021-05-27 06:54:14", "2021-05-27 06:54:14.760", "06 Jan 2017 16:16:37.000", "171113 14:14:20", "2021/02/27 - 14:14:20", "Wed Jan 25 09:20:30.123456 2017", "May 27, 2021 6:54:14 AM",
+		"2021-05-27T06:54:14Z", "27/May/2021:06:54:14 +0800", "2021-05-27 06:54:14 -0700", "1622098454", "2021-05-27 06:54:14.760 UTC", "not a time"}
+	n := 0
+	for _, zn := range []string{"Asia/Kolkata", "America/New_York", "America/St_Johns", "UTC"} {
+		loc, err := time.LoadLocation(zn)
+		if err != nil {
+			t.Fatalf("harness: %v", err)
+		}
+		time.Local = loc
+		for ti, text := range texts {
+			for form := 0; form < 4; form++ {
+				c := sem.NewCase(nil)
+				c.Fields = map[string]any{"keep": "k", "ts": text}
+				c.Tags = map[string]string{}
+				var call *gen.Node
+				switch form {
+				case 0:
+					call = gen.NCall("default_time", id("ts"))
+				case 1:
+					call = gen.NCall("default_time", id("ts"), str(""))
+				case 2:
+					call = gen.NCall("default_time", id("ts"), str("+8"))
+				default:
+					call = gen.NCall("default_time", id("ts"), str("Local"))
+				}
+				c.Scripts[c.Root] = gen.FixAll([]*gen.Node{call})
+				judge(t, "process-zone", c, fmt.Sprintf("proczone/%s/%d/%d", zn, ti, form), zn != "UTC", "process-zone/"+zn)
+				n++
+			}
+		}
+	}
+	time.Local = old
+	evid.Exhaustive("process zone x time text x {no zone argument, empty, offset, Local}", n)
 }
 
 func TestReplays(t *testing.T) {
